@@ -85,6 +85,9 @@ pub fn u(i: u8) -> String {
     p20(&format!("u{i}"))
 }
 
+/// monitors applied to every scripted step (a scenario reports those of its own properties)
+pub const SCRIPT_PROPS: [&str; 9] = ["C01", "C02", "C03", "C04", "C05", "C06", "C07", "C11", "C15"];
+
 /// scripted prefix; panics (machinery error) if a scripted step fails
 pub struct Script {
     pub s: Sim,
@@ -102,9 +105,18 @@ impl Script {
         Script { s, strict: true }
     }
     pub fn run(mut self, a: Act) -> Script {
+        let pre = self.s.clone();
         let ap = self.s.apply(&a);
         if self.strict && !ap.out.ok {
             panic!("seed script step failed: {:?}: {:?} {:?}", a, ap.out.err, ap.out.panicked);
+        }
+        // the scripted prefix is judged by the same monitors as explored transitions
+        let mut vs = mwsim::monitors::step_monitors(&SCRIPT_PROPS, &pre, &a, &ap, &self.s);
+        vs.extend(mwsim::monitors::state_monitors(&SCRIPT_PROPS, &self.s));
+        for v in vs {
+            if self.s.g.seed_viol.len() < 8 && !self.s.g.seed_viol.iter().any(|x| x.1 == v.key) {
+                self.s.g.seed_viol.push((v.property, format!("seed.{}", v.key), format!("while building the seed, at {}: {}", act_label(&a), v.detail)));
+            }
         }
         self
     }
@@ -124,7 +136,11 @@ impl Script {
 /// build a seed; a scripted step that fails (for instance because the tree under test is broken)
 /// makes the seed unavailable instead of aborting the run
 pub fn try_seed(f: impl FnOnce() -> Sim) -> Option<Sim> {
-    mwsim::world::guarded(f).ok().map(|mut s| {
+    let r = mwsim::world::guarded(f);
+    if r.is_err() {
+        eprintln!("note: a scripted seed is unavailable on this tree: {}", mwsim::world::last_panic_message().replace('\n', " ").chars().take(300).collect::<String>());
+    }
+    r.ok().map(|mut s| {
         // the menus bound further activity relative to what the scripted prefix already used
         s.g.seed_batches = (s.m.batches.len() as u64).saturating_sub(2);
         s.g.seed_seq = s.w.ibc.next_seq.saturating_sub(6);
@@ -204,18 +220,23 @@ pub fn seed_sweep(k: &K) -> Sim {
 
 // ---- long scripted seeds: deep histories are cheap to script and put the search far from the initial state ----
 
-/// ten complete batch cycles (ids cross 9 -> 10), alternating exact / short / long deliveries, with
-/// some requests withdrawn and some left open; the 11th batch is pending with one request
-pub fn seed_ten_batches(k: &K) -> Sim {
+/// `n` complete batch cycles (ids cross 9 -> 10), alternating exact / short / long deliveries, with
+/// some requests withdrawn and some left open; batch n+1 is pending with one request.
+/// `deliver`: the operator returns the tokens of each batch (otherwise all n batches stay Submitted);
+/// `u2_withdraws`: whether u2 ever withdraws (if not, u2 keeps one open request per batch)
+pub fn seed_n_batches(k: &K, n: u64, deliver_each: bool, u2_withdraws: bool) -> Sim {
     let mut sc = Script::resumed(k);
     sc = sc.run(stake(&u(1), 5_000)).run(stake(&u(2), 3_000)).run(stake(&u(3), 1_000));
-    for i in 1..=10u64 {
+    for i in 1..=n {
         sc = sc.with(|s| unstake(s, &u(1), 100 + i as u128)).with(|s| unstake(s, &u(2), 50));
         if i % 3 == 0 {
             sc = sc.with(|s| unstake(s, &u(3), 7)).with(|s| unstake(s, &u(1), 1));
         }
-        sc = sc.with(|s| advance(pending_due(s) + (i % 2))).run(submit(&p20("x")));
-        sc = sc.with(|s| advance(s.m.batches[&i].due));
+        sc = sc.with(|s| advance((pending_due(s) + (i % 2)).max(s.w.time + 1))).run(submit(&p20("x")));
+        if !deliver_each {
+            continue;
+        }
+        sc = sc.with(|s| advance(s.m.batches[&i].due.max(s.w.time + 1)));
         sc = sc.with(|s| {
             let e = s.m.batches[&i].expected.unwrap();
             let amt = match i % 3 {
@@ -228,7 +249,7 @@ pub fn seed_ten_batches(k: &K) -> Sim {
         if i % 2 == 1 {
             sc = sc.run(withdraw(&u(1), i));
         }
-        if i % 4 == 0 {
+        if u2_withdraws && i % 4 == 0 {
             sc = sc.run(withdraw(&u(2), i));
         }
         if i == 5 {
@@ -236,7 +257,35 @@ pub fn seed_ten_batches(k: &K) -> Sim {
         }
     }
     sc = sc.with(|s| unstake(s, &u(2), 20));
-    sc.done()
+    sc.with(|s| advance(pending_due(s).max(s.w.time + 1))).done()
+}
+
+pub fn seed_ten_batches(k: &K) -> Sim {
+    seed_n_batches(k, 10, true, false)
+}
+
+/// [staked, staked, LST] (or [LST, staked]) refundable transfers that all name the staker as receiver
+pub fn seed_mixed_refundable(k: &K, base: Sim, lst_lowest: bool) -> Sim {
+    let mut s = base;
+    let staker = n20(k, "staker");
+    if lst_lowest {
+        let ap = s.apply(&hold(stake_to(&u(1), 20, Some(staker.clone()), Some(true), None)));
+        assert!(ap.out.ok, "{:?}", ap.out.err);
+        s.apply(&Act::Outcome { seq: ap.out.new_packets[0], kind: 0 });
+        s.apply(&Act::Outcome { seq: ap.out.new_packets[1], kind: 2 });
+        let ap = s.apply(&hold(stake(&u(1), 21)));
+        assert!(ap.out.ok);
+        s.apply(&Act::Outcome { seq: ap.out.new_packets[0], kind: 1 });
+    } else {
+        let ap = s.apply(&hold(stake(&u(1), 21)));
+        assert!(ap.out.ok, "{:?}", ap.out.err);
+        s.apply(&Act::Outcome { seq: ap.out.new_packets[0], kind: 1 });
+        let ap = s.apply(&hold(stake_to(&u(1), 20, Some(staker), Some(true), None)));
+        assert!(ap.out.ok);
+        s.apply(&Act::Outcome { seq: ap.out.new_packets[0], kind: 2 });
+        s.apply(&Act::Outcome { seq: ap.out.new_packets[1], kind: 2 });
+    }
+    s
 }
 
 /// many small rewards whose fee remainders accumulate (and two fee-configuration changes on the way)
